@@ -829,6 +829,62 @@ func main() {
 					}
 				}
 			}
+			// the connection breaks (a transport error, or a plain end) while the request is still
+			// arriving: with and without the debugging wrapper the upgrader reports the same failure
+			for _, cbs := range [][2]bool{{true, true}, {true, false}, {false, true}} {
+				for _, how := range []string{"error", "error-with-last-bytes", "EOF"} {
+					for _, ch := range []int{0, 7} {
+						cbs, how, ch := cbs, how, ch
+						cfg := pair{cProto: []string{"a"}, sProto: "a"}
+						lc := &hs.LazyConn{Respond: func([]byte) []byte { return nil }}
+						cfg.dialer().Upgrade(lc, theURL)
+						req := append([]byte{}, lc.Req.Bytes()...)
+						for _, cut := range []int{0, 3, 20, len(req) / 2, len(req) - 2, len(req) - 1} {
+							cut := cut
+							t.Do(func() string {
+								return fmt.Sprintf("DebugUpgrader: the connection ends (%s) after %d of %d request bytes, chunk=%d onRequest=%v onResponse=%v", how, cut, len(req), ch, cbs[0], cbs[1])
+							}, func() *explore.Fail {
+								mk := func() *env.Src {
+									src := env.NewSrc(req)
+									src.Cut = cut
+									src.Policy = env.FixedChunk(ch)
+									if how != "EOF" {
+										src.EndErr = env.ErrInjected
+									}
+									src.WithLast = how == "error-with-last-bytes"
+									return src
+								}
+								var pout, dout bytes.Buffer
+								_, perr := cfg.upgrader().Upgrade(struct {
+									io.Reader
+									io.Writer
+								}{mk(), &pout})
+								du := wsutil.DebugUpgrader{Upgrader: cfg.upgrader()}
+								if cbs[0] {
+									du.OnRequest = func([]byte) {}
+								}
+								if cbs[1] {
+									du.OnResponse = func([]byte) {}
+								}
+								_, derr := du.Upgrade(struct {
+									io.Reader
+									io.Writer
+								}{mk(), &dout})
+								if perr == nil || derr == nil {
+									return explore.Failf("upgrade-succeeds-on-cut-request", "plain %v debug %v", perr, derr)
+								}
+								if perr.Error() != derr.Error() {
+									return explore.Failf("debug-upgrader-changes-the-failure", "plain upgrader: %v; through the debugging wrapper: %v", perr, derr)
+								}
+								if !bytes.Equal(pout.Bytes(), dout.Bytes()) {
+									return explore.Failf("debug-upgrader-changes-bytes-written-on-failure", "plain %q debug %q", pout.Bytes(), dout.Bytes())
+								}
+								return nil
+							})
+						}
+					}
+				}
+			}
 		})
 	})
 }
